@@ -29,6 +29,11 @@ PROPS = {
     'C18': {
         'verus': [{'unit': 'modpath', 'rlimit': 30}],
         'oracles': [{'unit': 'modpath', 'mount': 'src/lib.rs', 'mod': 'verif_replay_modpath', 'test': 'verif_oracle_modpath'}],
+        'bounded_native': [{'unit': 'modpath', 'mount': 'src/lib.rs', 'mod': 'verif_replay_modpath', 'test': 'verif_oracle_modpath', 'shared_with_oracle': True,
+                            'bound': 'cross-check of the trusted wrapper contracts R1-R6 against the std calls for every string of length <= 6 over {/ . a e-acute} (5461 strings), plus the reference comparison of resolve() on 208k specifier x importer pairs',
+                            'obligations': ['modpath/ModulePath::wrapper/R1_split_contract', 'modpath/ModulePath::wrapper/R2_join_contract',
+                                            'modpath/ModulePath::wrapper/R4_starts_with_char_contract', 'modpath/ModulePath::wrapper/R4_starts_with_str_contract',
+                                            'modpath/ModulePath::wrapper/R5_before_last_contract', 'modpath/ModulePath::wrapper/R3_R6_concat_contract']}],
         'trusted_base': COMMON_TB,
         'assumptions': [
             'std string calls are routed through trusted wrappers whose bodies are the std calls they replace (rules R1-R6, listed in extraction_edits): '
